@@ -686,7 +686,7 @@ impl Fiber {
     let exception_handler = match self.exception_handler() {
       Some(exception_handler) => {
         let bottom_frame = bottom_frame.unwrap_or(0);
-        if exception_handler.call_frame_depth() >= bottom_frame {
+        if exception_handler.call_frame_depth() > bottom_frame {
           exception_handler
         } else {
           return UnwindResult::UnwindStopped;
